@@ -6,7 +6,7 @@ from .. import gen
 
 def worklist_program(rng, pid, dev, nops, unit=Fraction(1), maxunits=16, wlmax=None, fault=0.0, fault_last=False,
                      comps=True, big_geom=False, small=True, autosplit=True, diti=False, direct=False, flags=None,
-                     weights=None, transfer_kw=None, big_factor=3, labware_kw=False):
+                     weights=None, transfer_kw=None, big_factor=3, labware_kw=False, emit_prob=0.0):
     """Generate (by driving the implementation) one program. Returns the replayable program."""
     lws = gen.random_labware(rng, small=small, maxunits=maxunits, big_geom=big_geom)
     wlmax = wlmax if wlmax is not None else rng.choice([2, 3, 5, maxunits])
@@ -22,6 +22,12 @@ def worklist_program(rng, pid, dev, nops, unit=Fraction(1), maxunits=16, wlmax=N
             f = fault
             if fault_last:
                 f = 1.0 if i == nops - 1 else 0.0
+            if emit_prob and rng.random() < emit_prob:
+                # device independent low level records between the tracked operations
+                fn = rng.choice(["comment", "wash", "flush", "commit", "comment"])
+                args = {"text": rng.choice(["note", "two\nlines", "", " padded "])} if fn == "comment" else (
+                    {"scheme": {"cls": "int", "v": rng.randint(1, 4)}} if fn == "wash" else {})
+                sess.do({"op": "emit", "fn": fn, "args": args}, {})
             kind = rng.choice(kinds)
             if kind == "transfer":
                 tk = dict(transfer_kw or {})
